@@ -330,7 +330,7 @@ func runC19(r *R) {
 				}
 				if k, ok := contentTypeCompare(iff.Cond); ok {
 					// does this If guard the call (true side)?
-					cut := EdgeSet{Edge{b, 0}: true}
+					cut := EdgeSet{E(b, 0): true}
 					if !ReachFromEntry(fn, c.(ssa.Instruction), cut) {
 						have = append(have, k)
 					}
